@@ -138,7 +138,12 @@ func resolveRing(w *World) (*ringInfo, error) {
 		for _, in := range b.Instrs {
 			if c, ok := in.(*ssa.Call); ok {
 				if callee := c.Call.StaticCallee(); callee != nil && callee.Signature.Recv() != nil && isPtrTo(callee.Signature.Recv().Type(), T) {
-					ri.full = callee
+					// ... and returns a slice (other small helpers of GetHistory, e.g. an extracted length computation, do not)
+					if callee.Signature.Results().Len() == 1 {
+						if _, isSlice := callee.Signature.Results().At(0).Type().Underlying().(*types.Slice); isSlice {
+							ri.full = callee
+						}
+					}
 				}
 			}
 		}
